@@ -195,7 +195,7 @@ def _run(case: Dict[str, Any], sim: Sim, world: World) -> None:
         for i in range(n):
             if seen[i].get("retired"):
                 continue
-            if seen[i]["cls"] is None or isinstance(seen[i]["cls"], bool) or not isinstance(seen[i]["cls"], int):
+            if seen[i]["cls"] is None:
                 raise Violation(PROP, site, "item_without_class", cond, {"item": seen[i]["spec"], "class": repr(seen[i]["cls"])})
         rep: Dict[int, int] = {}
         for i in range(n):
